@@ -852,7 +852,7 @@ PROPS["C19"].update({
 })
 
 # properties whose checks are still being stabilised are not claimed in MANIFEST.json yet
-NOT_READY = ["C01", "C02", "C10", "C12"]
+NOT_READY = ["C01", "C02", "C10"]
 for _p in PROPS:
     PROPS[_p]["claimed"] = (_p not in NOT_READY) and ("level_text" in PROPS[_p])
 PROPS["C03"]["extra"] = [_engine_m("c08_completion")]
